@@ -444,8 +444,7 @@ def h_construct(n_parts: int, l0: int, l1: int, l2: int, l3: int, c0: int, c1: i
     elif route == 5:
         t = CHText(parts)                           # list argument
     else:
-        chunks = [p if not isinstance(p, str) else CHText.Chunk.make_plain(p) for p in parts]
-        chunks = [c for c in chunks if c.text]
+        chunks = [p if not isinstance(p, str) else CHText.Chunk.make_plain(p) for p in parts]       # incl. chunks with empty text
         reject_unless(len(chunks) > 0)
         t = CHText.make(chunks)
     got = _observe(t)
